@@ -88,6 +88,8 @@ def check_expression(tree, text, globals_, locals_, script_too=True):
         model = impl.bs.parse_expression(text)
     except impl.bs.ParserError as e:
         raise Violation('generated expression %r does not parse: %s' % (text, e.error), d, 'parse') from e
+    except Exception as e:  # pylint: disable=broad-except
+        raise Violation('parse_expression(%r) raised %s' % (text, type(e).__name__), d, 'parse-host-exception') from e
     ilog = []
     ig = dict(globals_)
     ig['probe'] = probe_impl(ilog)
